@@ -17,7 +17,12 @@ from harness.rigs import envrig, xproc
 from harness.rigs import nondet_sites as sites
 
 MANIFEST = {
-    "text": "Lean 4 proof, PARTIAL. Model: a run is a function of an explicit opaque environment rho (stream of unseeded identifiers - uuid4, "
+    "text": "Lean 4 proof, FULL since the F-9 repair (frame timestamps and NTP reply times serialised with a constant width, generated ICMP "
+            "identifiers of five digits: C03_run_indep_of_env / C03_reseed_reproduces / C03_code_reseed_reproduces / C03_generators_after_reseed "
+            "carry no hypothesis on the environments, only `g.FixedWidth` about the code's text-length function, tied to the source by "
+            "C03_gen_fixed_width_readings and the site facts storedIn / boundedSecret; the `_agree` variants are the general lemmas; "
+            "C03_full_counterexample now speaks of VARIABLE-width readings, i.e. the code before the repair; the F-9 witness pair is a "
+            "regression oracle that must produce identical trajectories). Model: a run is a function of an explicit opaque environment rho (stream of unseeded identifiers - uuid4, "
             "generated MACs -, stream of wall-clock/unseeded readings, for every iteration of a hash-ordered set the order in which its elements "
             "come out, and a stream of OS entropy for generators nobody seeded); the simulator is ANY program over an interface in which "
             "identifiers are equality tokens, readings reach state only through the length of their text inside Frame.size, sets are iterated "
@@ -67,7 +72,7 @@ MANIFEST = {
 MODULES = ["PrimaiteModel.Props.C03"]
 # basis of every reason of the discharge table (mirrors `Discharge.basis` in Lemmas/NondetDischarge.lean; the split itself is the
 # theorem C03_discharge_counts)
-BASIS = {"readingLenF9": "openFinding", **{r: "mechanical" for r in ("fixedLenSecret", "clockNotRead", "seededRng", "seeding", "unseededByConfig",
+BASIS = {**{r: "mechanical" for r in ("fixedWidthReading", "fixedLenSecret", "clockNotRead", "seededRng", "seeding", "unseededByConfig",
                                                                      "offline", "setDeclCovered", "setEmpty", "setSingleton", "hashValueDiscarded")},
          **{r: "trusted" for r in ("hashNotIterated", "setMembershipOnly", "setIntHash", "idTextEqOnly")}}
 EXE = "drv_c03"
@@ -567,37 +572,70 @@ F9_PINS = {"clock": ({"micro": 0, "icmp_id": 4242}, {"micro": 123456, "icmp_id":
            "icmp-identifier": ({"micro": 123456, "icmp_id": 7}, {"micro": 123456, "icmp_id": 54321})}
 
 
-def f9_compute() -> List[Tuple[str, Optional[dict], bool]]:
-    """Known finding F-9, replayed on the implementation on every run (one interpreter with a clock whose microsecond field is
-    zero, one with a clock whose field is not; likewise a 1-digit and a 5-digit ICMP identifier). No Ctx access: runs in a thread."""
+def f9_loads(pin_a: Dict, pin_b: Dict) -> Optional[Tuple[float, float]]:
+    """The load one step puts on the first link under each pin (uncongested links)."""
+    r = xproc.run_workers({"cfg": f9_cfg(None), "ops": [1, 1], "probe": {"link_loads": True}},
+                          [{"hashseed": 1, "pin": pin_a}, {"hashseed": 1, "pin": pin_b}], REPO, VERIF, servers=SERVERS)
+    try:
+        return (float.fromhex(json.loads(r[0][1][-1])["probe"]["link_loads"][0]), float.fromhex(json.loads(r[1][1][-1])["probe"]["link_loads"][0]))
+    except Exception:
+        return None
+
+
+def f9_compute() -> List[Tuple[str, Optional[dict], Dict]]:
+    """Finding F-9 (REPAIRED) as a regression oracle, on every run: two interpreters that differ only in a pinned reading - a clock
+    whose microsecond field is zero vs one whose field is not; an ICMP identifier pinned to the smallest vs a large value the code can
+    draw (a 1-digit vs a 5-digit one for the code before the repair) - must now (1) put the SAME load on the link and (2) produce
+    IDENTICAL trajectories on the link whose bandwidth used to sit between the two frame sizes (stored witness). If they differ the
+    old search runs again to produce the witness. No Ctx access: runs in a thread."""
     stored = {}
     f = VERIF / "corpus" / "C03" / "f9_frame_size_text_length.json"
     if f.exists():
         stored = json.loads(f.read_text()).get("bandwidth", {})
     out = []
     for which, (pa, pb) in F9_PINS.items():
-        w = f9_try(stored[which], pa, pb) if which in stored else None
-        searched = False
-        if w is None:
-            searched = True
+        info: Dict[str, Any] = {}
+        loads = f9_loads(pa, pb)
+        info["loads_measured"] = loads is not None
+        info["loads_equal"] = bool(loads and loads[0] == loads[1])
+        w = None
+        if which in stored:
+            cfg = f9_cfg(stored[which])
+            r = xproc.run_workers({"cfg": cfg, "ops": [1, 1]}, [{"hashseed": 1, "pin": pa}, {"hashseed": 1, "pin": pb}], REPO, VERIF, servers=SERVERS)
+            a, b = r[0][1], r[1][1]
+            info["stored_pair_played"] = bool(a and b and not a[0].startswith('{"raised"'))
+            info["stored_pair_lines"] = len(a)
+            w = f9_try(stored[which], pa, pb) if xproc.first_diff(a, b) is not None else None
+        if w is None and loads and loads[0] != loads[1]:
             w = f9_search(pa, pb)
-        out.append((which, w, searched))
+        out.append((which, w, info))
     return out
 
 
 def f9_record(ctx: Ctx, results):
-    for which, w, searched in results:
-        if searched:
-            ctx.count("f9:stored-witness-did-not-fail-searched-again")
-        if w is None:
-            ctx.notes.append(f"F-9 ({which}): no witness found on this tree (finding may be repaired)")
-            ctx.count("f9:no-witness:" + which)
+    ok = True
+    for which, w, info in results:
+        played = info.get("loads_measured") and info.get("stored_pair_played")
+        ctx.count(f"f9-regression:{which}:" + ("pair-played" if played else "pair-NOT-played"))
+        if info.get("loads_equal"):
+            ctx.count(f"f9-regression:{which}:link-loads-equal")
+        if w is None and played and info.get("loads_equal"):
+            ctx.count(f"f9-regression:{which}:trajectories-identical")
             continue
-        ctx.count("f9:witness-fails:" + which)
-        desc = xproc.describe_diff(w["a"], w["b"]) if w["a"] and w["b"] else {"part": "length"}
-        ctx.violation({"kind": "frame-size-depends-on-unseeded-text-length", "reading": which},
-                      f"same scenario, seed and actions, two processes that differ only in the pinned {which} reading "
-                      f"(link bandwidth {w['bandwidth']!r} Mbit): line {w['first_diff']} differs ({desc})", w)
+        ok = False
+        if w is not None:
+            desc = xproc.describe_diff(w["a"], w["b"]) if w["a"] and w["b"] else {"part": "length"}
+            ctx.violation({"kind": "fixed-width-regression", "reading": which},
+                          f"F-9 is back: same scenario, seed and actions, two processes that differ only in the pinned {which} reading "
+                          f"(link bandwidth {w['bandwidth']!r} Mbit): line {w['first_diff']} differs ({desc})", w)
+        elif played:
+            ctx.violation({"kind": "fixed-width-regression", "reading": which, "part": "link-load"},
+                          f"F-9 is back: the load one ping scan puts on the link differs between two processes that differ only in the pinned {which} reading",
+                          {"cfg_yaml": _yaml(f9_cfg(None)), "ops": [1, 1], "probe": {"link_loads": True},
+                           "variants": [{"hashseed": 1, "pin": F9_PINS[which][0]}, {"hashseed": 1, "pin": F9_PINS[which][1]}]})
+    ctx.oblige("oracle:F-9 regression - a pinned zero-microsecond clock / smallest identifier changes neither the link load nor the trajectory",
+               "correspondence", ok, "" if ok else "see violations / the pair could not be played")
+    ctx.cov["f9_regression"] = {which: info for which, _, info in results}
 
 
 # ------------------------------------------------------------------------------------------------ component rig (driver vs real code)
@@ -655,6 +693,10 @@ def site_rig(ctx: Ctx):
         lines.append(f"toklen {nbytes}")
         impl.append(str(len(_secrets.token_urlsafe(nbytes))))
         meta.append({"site": "toklen", "nbytes": nbytes})
+    for n_ in [0, 7, 9, 10, 99, 100, 999, 1000, 9999, 10000, 10001, 54321, 65535, 99999, 100000, 123456789] + [rng.range(10000, 65535) for _ in range(20)]:
+        lines.append(f"declen {n_}")
+        impl.append(str(len(str(n_))))
+        meta.append({"site": "declen", "n": n_})
     model = run_driver(EXE, lines)
     bad = 0
     for q, a, b, m in zip(lines, impl, model, meta):
@@ -696,6 +738,8 @@ def _site_impl(c: dict, game, lookup) -> str:
             return sites.seedact_reset_impl(env, c["seed"], c["generate_seed_value"])
         finally:
             env.close()
+    if c["site"] == "declen":
+        return str(len(str(c["n"])))
     if c["site"] == "toklen":
         import secrets as _secrets
         return str(len(_secrets.token_urlsafe(c["nbytes"])))
@@ -956,7 +1000,7 @@ def _run_rigs(ctx: Ctx, gen_cases, seeds: List[int], started, proved: bool, new_
     ctx.cov["reseed_oracle"] = {k[7:]: v for k, v in ctx.hist.items() if k.startswith("reseed:")}
     ctx.cov["case_wall_s"] = dict(CASE_WALL)
     # -- search: a broken inventory / seeding obligation without a concrete input so far -> drive the code of the new sites harder
-    unlisted = [v for v in ctx.violations if v["sig"].get("kind") != "frame-size-depends-on-unseeded-text-length"]
+    unlisted = list(ctx.violations)
     if (not proved or new_sites) and not unlisted:
         extra = []
         sr = ctx.rng.fork("search-variants")
